@@ -213,10 +213,26 @@ def all_extensions(repo: Repo, chk: Check) -> None:
         if not found:
             raise AnalysisError(f"supported_kernel of {nm} not found")
         kernels[nm] = sk
+    # an answer remembered between calls must be keyed by what it depends on: is_same_kernel compares the kernel's type AND its element types
+    from .common import memo_audit
+
+    rmod = repo.module(RULES)
+    for hf in rmod.funcs.values():
+        for cont, node, problems, unknown in memo_audit(hf, repo):
+            where = f"{rmod.relpath}:{getattr(node, 'lineno', 0)}"
+            if problems:
+                chk.bad("C14.all-extensions", f"{hf.key}:{cont}", where,
+                        f"the classification is remembered in `{cont}` under a key that does not determine it: {problems}; the first kernel of a type seen in the process decides for "
+                        "every later kernel of that type, whatever its element types (an xDMA add on i32 is not data movement once an i64 add was classified)")
+            elif unknown:
+                raise AnalysisError(f"{where}: cache `{cont}` of {hf.qualname}: cannot tell whether the key determines the classification ({unknown})")
     for qual in ("dispatch_to_dm", "dispatch_to_compute"):
         f = repo.func(RULES, qual)
-        scans = [n for n in ast.walk(f.node) if isinstance(n, (ast.comprehension, ast.For)) and isinstance(n.iter, ast.Name) and n.iter.id == "XDMA_EXT_SET"]
-        same = [n for n in ast.walk(f.node) if isinstance(n, ast.Call) and callee_name(n) == "is_same_kernel"]
+        # the scan may sit in a plain helper of the module that the rule calls
+        nodes = [f.node] + [rmod.funcs[c.func.id].node for c in ast.walk(f.node) if isinstance(c, ast.Call) and isinstance(c.func, ast.Name) and c.func.id in rmod.funcs
+                            and rmod.funcs[c.func.id].node is not f.node]
+        scans = [n for root in nodes for n in ast.walk(root) if isinstance(n, (ast.comprehension, ast.For)) and isinstance(n.iter, ast.Name) and n.iter.id == "XDMA_EXT_SET"]
+        same = [n for root in nodes for n in ast.walk(root) if isinstance(n, ast.Call) and callee_name(n) == "is_same_kernel"]
         if scans and same:
             chk.ok("C14.all-extensions", f"{f.key}:scan", f.where, f"the kernel is compared with every extension of XDMA_EXT_SET ({len(kernels)} extensions)")
             continue
@@ -294,17 +310,32 @@ def conditions(repo: Repo, chk: Check) -> None:
         floor=5,
     )
     calls = [s for s in fl.calls("dispatcher") if s.reachable]
-    if len(calls) < 2:
-        raise AnalysisError(f"{f.where}: expected two dispatcher(...) calls")
-    seen = {}
-    core_calls = set()
+    # (site, condition expression, rule expression) of every use of the dispatcher: called directly, or through a local driver that hands its own
+    # parameters on to it (`def dispatch_all_blocks(core_cond, rule): ... dispatcher(block, core_cond, lambda x: rule(x, self.ctx))`)
+    uses: list[tuple[Site, ast.expr, ast.expr]] = []
     for s in calls:
         c = s.node
         assert isinstance(c, ast.Call)
         if len(c.args) < 3:
             raise AnalysisError(f"{s.where()}: dispatcher call with fewer than 3 arguments")
-        cond = s.expand(c.args[1])
-        rule = c.args[2]
+        uses.append((s, s.expand(c.args[1]), c.args[2]))
+    if len(uses) < 2:
+        for h in [n for n in ast.walk(f.node) if isinstance(n, ast.FunctionDef) and n is not f.node and n.name != "dispatcher"]:
+            inner = [c for c in ast.walk(h) if isinstance(c, ast.Call) and callee_name(c) == "dispatcher" and len(c.args) >= 3]
+            if len(inner) != 1:
+                continue
+            hp = [a.arg for a in h.args.args]
+            for s in [x for x in fl.calls(h.name) if x.reachable]:
+                if len(s.node.args) != len(hp) or s.node.keywords:
+                    raise AnalysisError(f"{s.where()}: call of the local driver {h.name} with other than positional arguments")
+                from sa.flow import expand as _expand
+                sub = {p_: s.expand(a_) for p_, a_ in zip(hp, s.node.args)}
+                uses.append((s, _expand(inner[0].args[1], sub), _expand(inner[0].args[2], sub)))
+    if len(uses) < 2:
+        raise AnalysisError(f"{f.where}: expected two dispatcher(...) calls")
+    seen = {}
+    core_calls = set()
+    for s, cond, rule in uses:
         which = "dm" if "dispatch_to_dm" in ast.unparse(rule) else "compute" if "dispatch_to_compute" in ast.unparse(rule) else None
         if which is None:
             chk.bad("C14.conditions", f"{f.key}:rule", s.where(), f"dispatcher is called with rule {ast.unparse(rule)[:60]}")
@@ -354,6 +385,16 @@ def wrap(repo: Repo, chk: Check) -> None:
     for n in ast.walk(f.node):
         if isinstance(n, ast.For) and ast.unparse(n.iter) == lst and any(isinstance(x, ast.Call) and callee_name(x) == "detach" for x in ast.walk(n)):
             move_stmt = n
+    if move_stmt is None:
+        # the move lives in a local function that is handed the pending list: `def guard_ops(group): for o in group: ...` called as guard_ops(pending)
+        for h in [x for x in ast.walk(f.node) if isinstance(x, ast.FunctionDef) and x is not f.node]:
+            hp = [a.arg for a in h.args.args]
+            for n in ast.walk(h):
+                if isinstance(n, ast.For) and isinstance(n.iter, ast.Name) and n.iter.id in hp and any(isinstance(x, ast.Call) and callee_name(x) == "detach" for x in ast.walk(n)):
+                    k_ = hp.index(n.iter.id)
+                    sites_h = [c for c in ast.walk(f.node) if isinstance(c, ast.Call) and isinstance(c.func, ast.Name) and c.func.id == h.name]
+                    if sites_h and all(len(c.args) > k_ and ast.unparse(c.args[k_]) == lst for c in sites_h):
+                        move_stmt = n
     if move_stmt is None:
         raise AnalysisError(f"{f.where}: the loop moving the collected ops was not found")
     def _pos(st: ast.AST) -> tuple:
@@ -465,7 +506,29 @@ def all_blocks(repo: Repo, chk: Check) -> None:
             if not in_helper:
                 chk.result(over_blocks, "C14.all-blocks", key + ":every-block", where, "called for every block of the function body",
                            "dispatcher is not called for every block of func_op.body.blocks")
-    if n_calls < 2:
+    # a local driver that runs the dispatcher over the blocks stands for one use per call of it; those calls must be eager too
+    drivers = [h for h in ast.walk(f.node) if isinstance(h, ast.FunctionDef) and h is not f.node and h.name != "dispatcher"
+               and any(isinstance(c, ast.Call) and callee_name(c) == "dispatcher" for c in ast.walk(h))]
+    n_uses = n_calls
+    for h in drivers:
+        n_inner = sum(1 for c in ast.walk(h) if isinstance(c, ast.Call) and callee_name(c) == "dispatcher")
+        sites_h = [c for c in ast.walk(f.node) if isinstance(c, ast.Call) and isinstance(c.func, ast.Name) and c.func.id == h.name]
+        n_uses += n_inner * (len(sites_h) - 1)
+        for k_, c in enumerate(sites_h, 1):
+            cur = c
+            lazy = None
+            while id(cur) in parents:
+                par = parents[id(cur)]
+                if isinstance(par, ast.GeneratorExp) and isinstance(parents.get(id(par)), ast.Call) and callee_name(parents[id(par)]) in ("any", "all", "next"):
+                    lazy = f"generator consumed by {callee_name(parents[id(par)])}()"
+                if isinstance(par, ast.BoolOp) and par.values and cur is not par.values[0]:
+                    lazy = "right operand of a short-circuit and/or"
+                if isinstance(par, (ast.For, ast.While, ast.If)) and cur is not getattr(par, "test", None) and cur is not getattr(par, "iter", None) and isinstance(par, ast.If) and False:
+                    pass
+                cur = par
+            chk.result(lazy is None, "C14.all-blocks", f"{f.key}:{h.name}-call#{k_}:eager", f"{f.module.relpath}:{c.lineno}", f"the local driver {h.name} is always evaluated",
+                       f"{h.name}(...), which runs the dispatcher, is evaluated lazily ({lazy}): one kind of op is not dispatched when the other kind reported a change")
+    if n_uses < 2:
         raise AnalysisError(f"{f.where}: dispatcher calls not found")
     # early returns before dispatching
     first_line = min(n.lineno for n in ast.walk(f.node) if isinstance(n, ast.Call) and callee_name(n) == "dispatcher" and not any(
